@@ -26,13 +26,22 @@ func init() {
 }
 
 func runC10(r *Run) {
+	const I = "vm/embedded/implementation."
+	r.PureShapes([]string{I + "PillarGetRevokeStatus", I + "GetSentinelRevokeStatus", I + "TimeChallenge", I + "GetHtlcProxyUnlockStatus", I + "ApplyDecay", I + "GetQsrCostForNextPillar"},
+		"the lock/revoke windows, challenge delays, decay and deposit cost are computed by these helpers (shared with the RPC): a changed modulus or operand releases funds earlier than the lock allows or asks a different deposit")
+	// what a contract pays out is what the node itself computes: a delivered contract-receive (and each of its descendant payouts) is compared with the locally generated one
+	r.Guards([]row{
+		{F: "vm.(*VM).applyBlock", C: "ne(a0.ChangesHash,recv.generateEmbeddedReceive(a0.FromBlockHash)#0.ChangesHash) @ ne(2,a0.BlockType) & ne(3,a0.BlockType) & ne(4,a0.BlockType)", Why: "a delivered contract receive must have the state effect the node computes itself"},
+		{F: "vm.(*VM).applyBlock", C: "ne(a0.Hash,recv.generateEmbeddedReceive(a0.FromBlockHash)#0.ComputeHash()) @ ne(2,a0.BlockType) & ne(3,a0.BlockType) & ne(4,a0.BlockType)", Why: "and the hash (covering descendant recipients and amounts through their hashes) of the block the node generates itself — not of the delivered block"},
+	})
+	descendantHashBinding(r)
 	c10Files := fileIn(implDir+"stake.go", implDir+"plasma.go", implDir+"htlc.go", implDir+"pillars.go", implDir+"sentinel.go", implDir+"common.go", implDir+"liquidity.go", implDir+"bridge.go", implDir+"swap.go")
 	ng := r.GuardTable(c10Files, "a rejection performed by a contract method that accepts, holds or pays out locked funds: it decides who may release what and when; removing or weakening it releases funds to the wrong party, too early, or twice")
 	ne := r.EffectTable(c10Files, "a record/consume/pay effect of a contract method that accepts, holds or pays out locked funds: what is recorded at deposit, what is consumed and what is paid to whom at withdrawal")
 	r.Notes = append(r.Notes, "frozen contract tables: guards="+itoa(ng)+" effects="+itoa(ne)+" (generated by zcheck -gentable from the reviewed tree)")
 
 	// (3) pay ⇒ consume on every success path
-	I := "vm/embedded/implementation."
+	// I declared at the top
 	consume := map[string]string{
 		I + "(*CancelStakeMethod).ReceiveBlock":          "definition.GetStakeInfo(a0.Storage(),new(types.Hash),a1.Address)#0.Save(a0.Storage())",
 		I + "(*CancelLiquidityStakeMethod).ReceiveBlock": "definition.GetLiquidityStakeEntry(a0.Storage(),new(types.Hash),a1.Address)#0.Save(a0.Storage())",
